@@ -307,7 +307,7 @@ impl Prop for C02 {
         ]
     }
 
-    fn required_probes(&self) -> Vec<&'static str> { vec!["split_reply", "challenge_issued", "255_players", "split_6_or_more_fragments"] }
+    fn required_probes(&self) -> Vec<&'static str> { vec!["split_reply", "challenge_issued", "255_players", "split_6_or_more_fragments", "compressed_split_reply"] }
 
     fn components(&self) -> Value { standard_components() }
 }
